@@ -18,3 +18,17 @@ fn c15_fetch_any_pc() {
     assert!(cpu.pc == pc0.wrapping_add(2), "OBL:C15/fetch/advances_pc_by_2");
     kani::cover!(true, "REACH:end");
 }
+
+/// arbitrary registers / CCR, arbitrary instruction words at the default code address, dispatcher prefix of one
+/// or two words already fetched
+fn any_call_state() -> (Cpu, u16, u16) {
+    let mut cpu = new_cpu();
+    let w: [u16; 4] = [kani::any(), kani::any(), kani::any(), kani::any()];
+    let b0: u8 = kani::any();
+    let b1: u8 = kani::any();
+    let pre: u32 = if kani::any() { 1 } else { 2 };
+    let _ = setup(&mut cpu, PC_DEFAULT, 0xff, b0, b1, w, pre);
+    (cpu, ((b0 as u16) << 8) | b1 as u16, w[0])
+}
+
+include!(concat!(env!("KOGE29_VERIF_DIR"), "/kani/c15_gen.rs"));
